@@ -15,6 +15,9 @@ import itertools
 import json
 import os
 import re
+import subprocess
+import sys
+import threading
 import time
 
 from permuta import Perm
@@ -25,8 +28,76 @@ from harness import tlc, util
 DIRS = "UDLR"
 
 
+class TableDFA:
+    """An automaton received as its exported table (built by another interpreter)."""
+    def __init__(self, tab):
+        self.tab = (tab[0], tab[1], list(tab[2]), tab[3])
+        self.states = range(tab[0])
+
+    def accepts_input(self, w):
+        _, rows, fin, q = self.tab
+        for ch in w:
+            q = rows[q - 1][ch]
+        return q in fin
+
+
+# another interpreter, started with a different seed for the hashes of strings (pin words and automaton states live in
+# sets and dictionaries keyed by strings): it builds the automaton of every basis of the list and sends the tables
+CHILD = r"""
+import json, sys
+from permuta import Perm
+from permuta.permutils.pin_words import PinWords
+DIRS = "UDLR"
+def export(dfa):
+    states = sorted(dfa.states, key=repr)
+    idx = {s: i + 1 for i, s in enumerate(states)}
+    dead = None
+    rows = []
+    for s in states:
+        row = {}
+        for d in DIRS:
+            t = dfa.transitions.get(s, {}).get(d)
+            if t is None:
+                if dead is None:
+                    dead = len(states) + 1
+                row[d] = dead
+            else:
+                row[d] = idx[t]
+        rows.append(row)
+    n = len(states)
+    if dead is not None:
+        rows.append({d: dead for d in DIRS})
+        n += 1
+    return n, rows, sorted(idx[s] for s in dfa.final_states), idx[dfa.initial_state]
+for line in sys.stdin:
+    basis = json.loads(line)
+    try:
+        out = {"tab": export(PinWords.make_dfa_for_basis([Perm(p) for p in basis]))}
+    except Exception as e:
+        out = {"raise": type(e).__name__ + ": " + str(e)[:80]}
+    print(json.dumps(out), flush=True)
+"""
+
+
+def start_child(ctx, bl):
+    env = dict(os.environ, PYTHONHASHSEED=str(1 + (ctx.seed * 7919 + 15) % 4000000007 % 4294967294))
+    proc = subprocess.Popen([sys.executable, "-c", CHILD], stdin=subprocess.PIPE, stdout=subprocess.PIPE, stderr=subprocess.PIPE, text=True, env=env)
+
+    def feed():
+        try:
+            for basis in bl:
+                proc.stdin.write(json.dumps([list(p) for p in basis]) + "\n")
+            proc.stdin.close()
+        except OSError:
+            pass
+    threading.Thread(target=feed, daemon=True).start()
+    return proc, env["PYTHONHASHSEED"]
+
+
 def export(dfa):
     """DFA -> (n, delta rows, finals, init) with states renumbered 1..n and a dead state for missing moves."""
+    if isinstance(dfa, TableDFA):
+        return dfa.tab
     states = sorted(dfa.states, key=repr)
     idx = {s: i + 1 for i, s in enumerate(states)}
     dead = None
@@ -141,10 +212,16 @@ def run(ctx):
     finally:
         os.chdir(home)
     pool = concurrent.futures.ThreadPoolExecutor(max_workers=16)
+    child, child_seed = start_child(ctx, bl)
+    ctx.note("second_interpreter_string_hash_seed", child_seed)
     try:
         for bi, basis in enumerate(bl):
             B = [Perm(p) for p in basis]
             case = {"kind": "basis", "basis": [list(p) for p in basis]}
+            line = child.stdout.readline()
+            if not line:
+                raise tlc.MachineryFailure("C15: the second interpreter stopped: " + child.stderr.read()[-300:])
+            from_child = json.loads(line)
             st, fresh = util.call(PinWords.make_dfa_for_basis, list(B))
             if st == "raise":
                 ctx.violation(dict(case, form="make_dfa_for_basis"), "NoException", "an automaton", fresh)
@@ -180,6 +257,10 @@ def run(ctx):
             if quick:
                 extra = [extra[bi % len(extra)]] if extra else []
             variants = []
+            if "raise" in from_child:
+                ctx.violation(dict(case, form="make_dfa_for_basis in an interpreter with PYTHONHASHSEED=" + child_seed), "NoException", "an automaton", from_child["raise"])
+            else:
+                variants.append(("built by an interpreter with another string hash seed", TableDFA(from_child["tab"])))
             for name, mk in always + extra:
                 st, d = util.call(mk)
                 if st == "raise":
@@ -237,6 +318,7 @@ def run(ctx):
     finally:
         os.chdir(home)
         pool.shutdown(wait=False)
+        child.kill()
     nvar = 0
     for i, ((basis, use_db, fresh, variants, answers, _, _), sem, eq) in enumerate(results):
         ctx.add_tlc(sem, "product with the pin machine")
